@@ -155,6 +155,16 @@ def run_bounded(prop, tier, seed, budget_s, extra_cases=()):
     t0 = time.time()
     cases = list(extra_cases)
     gen = list(mod.cases(tier, seed))
+    if tier == "thorough":
+        # deeper exploration: the seeded part of every case family is redrawn for further seeds (exhaustive families repeat
+        # and are dropped as duplicates)
+        seen = {canon(c) for c in gen}
+        for extra in range(1, int(os.environ.get("VERIF_THOROUGH_SEEDS", "4"))):
+            for c in mod.cases(tier, seed + 1000 * extra):
+                k = canon(c)
+                if k not in seen:
+                    seen.add(k)
+                    gen.append(c)
     cases += gen
     nproc = int(os.environ.get("VERIF_JOBS", min(16, os.cpu_count() or 1)))
     nproc = max(1, min(nproc, len(cases)))
